@@ -1,5 +1,9 @@
 use std::os::fd::RawFd;
-use std::sync::atomic::{AtomicU32, Ordering};
+#[cfg(not(a10_verif))]
+use std::sync::atomic::AtomicU32;
+#[cfg(a10_verif)]
+use crate::verif::AtomicU32;
+use std::sync::atomic::Ordering;
 use std::time::Duration;
 use std::{fmt, io, mem, ptr};
 
